@@ -144,12 +144,13 @@ def set_additive_error_model(
 
     """
     dv = get_dv_symbol(model, dv)
-    if has_additive_error_model(model, dv):
+    data_trans = _canonicalize_data_transformation(model, data_trans, dv)
+    # NOTE: An explicitly requested data transformation must not be ignored
+    if data_trans == dv and has_additive_error_model(model, dv):
         return model
     stats, y, f = _preparations(model, dv)
     ruv = create_symbol(model, 'epsilon_a')
 
-    data_trans = _canonicalize_data_transformation(model, data_trans, dv)
     expr = f + ruv
 
     if data_trans != dv:
@@ -255,13 +256,14 @@ def set_proportional_error_model(
 
     """
     dv = get_dv_symbol(model, dv)
-    if has_proportional_error_model(model, dv):
+    data_trans = _canonicalize_data_transformation(model, data_trans, dv)
+    # NOTE: An explicitly requested data transformation must not be ignored
+    if data_trans == dv and has_proportional_error_model(model, dv):
         return model
 
     stats, y, f = _preparations(model, dv)
     ruv = create_symbol(model, 'epsilon_p')
 
-    data_trans = _canonicalize_data_transformation(model, data_trans, dv)
     ipred = create_symbol(model, 'IPREDADJ') if zero_protection else f
 
     sigma = create_symbol(model, 'sigma')
@@ -381,7 +383,9 @@ def set_combined_error_model(
 
     """
     dv = get_dv_symbol(model, dv)
-    if has_combined_error_model(model, dv):
+    data_trans = _canonicalize_data_transformation(model, data_trans, dv)
+    # NOTE: An explicitly requested data transformation must not be ignored
+    if data_trans == dv and has_combined_error_model(model, dv):
         return model
     stats, y, f = _preparations(model, dv)
 
@@ -392,8 +396,6 @@ def set_combined_error_model(
 
     eta_ruv = Expr.symbol('ETA_RV1')
     theta_time = Expr.symbol('time_varying')
-
-    data_trans = _canonicalize_data_transformation(model, data_trans, dv)
 
     sigma_prop = create_symbol(model, 'sigma_prop')
     model = add_population_parameter(model, sigma_prop.name, 0.09)
